@@ -5,7 +5,25 @@ From Coq Require Import List NArith ZArith Bool Arith Lia Permutation.
 Import ListNotations.
 From LC.Base Require Import Utf8 Float64 Sort SortProof Float64Proof.
 From LC.V2 Require Import Tok SSet Match ScoringProof MatchND MatchWF.
-From LC.V2 Require Import TokInv Reader ReaderProof.
+From LC.V2 Require Import TokInv Reader ReaderProof Glue.
+
+(* Match is total for every threshold, corpus and input whenever the diff oracle returns valid edit scripts for the ranges it is asked about (the contract validated on every diff of every run) - no other hypothesis on scoring *)
+Theorem C10_total_for_valid_oracle : forall C docs tgt_ids tgt_lines pseudo tset,
+  (* oracle contract *)
+  (forall d r, In d docs -> In r (find_potential_matches (cd_set d) tset (cf_thr C)) ->
+     exists raw, cf_diff C (cd_key d) (tgt_start r) (tgt_end r) = Some raw /\
+                 valid_script raw (span tgt_ids (tgt_start r) (tgt_end r)) (cd_ids d) /\
+                 wf_script (cf_word C) raw /\ D3 raw) ->
+  (* the remaining fields of match_hyps *)
+  (forall d, In d docs ->
+     key_part (cd_key d) 0 <> None /\ key_part (cd_key d) 1 <> None /\ key_part (cd_key d) 2 <> None) ->
+  (forall d, In d docs -> ss_wf (cd_set d)) ->
+  ss_wf tset ->
+  ss_len tset = N.of_nat (length tgt_lines) ->
+  length tgt_ids = length tgt_lines ->
+  exists r, match_tokens C docs tgt_ids tgt_lines pseudo tset = Ok r.
+Proof. exact C10_total_for_valid_oracle. Qed.
+Print Assumptions C10_total_for_valid_oracle.
 
 (* match never hits an index-out-of-range site, for every threshold (0 included since the "fix:"), corpus and input, given a valid diff oracle and well-formed search sets *)
 Theorem C10_match_total : forall C docs tgt_ids tgt_lines pseudo tset,
@@ -48,9 +66,9 @@ Proof. exact stream_equals_whole. Qed.
 Print Assumptions C10_reader_total.
 
 (* the fuelled sort always returns a permutation (fuel suffices) *)
-(* statement as proved in V2/MatchWF.v (restated through its type) *)
-Theorem C10_sort_permutes : ltac:(let t := type of (@msort_perm) in exact t).
+(* statement as proved in V2/MatchWF.v (written out; checked against the lemma by exact) *)
+Theorem C10_sort_permutes :
+  forall (A : Type) (lt : A -> A -> bool) (fuel : nat) (l : list A), Permutation (msort lt fuel l) l.
 Proof. exact (@msort_perm). Qed.
-Check C10_sort_permutes.
 Print Assumptions C10_sort_permutes.
 
